@@ -331,7 +331,8 @@ class ManifestContext:
         period.finish_setup(
             mode=opts.mode, timing=timing, base_url=base_url,
             use_base_urls=opts.useBaseUrls)
-        if is_https_request():
+        if opts.useBaseUrls and is_https_request():
+            # finish_setup() only sets a baseURL when BaseURL elements are in use
             period.baseURL = period.baseURL.replace('http://', 'https://')
         for adp in period.adaptationSets:
             if not adp.encrypted:
